@@ -580,12 +580,11 @@ retry:
         goto retry;
       }
 
-      if (!traits::compare_nontrivial_key(acc, key)) {
-        continue;
+      if (traits::compare_nontrivial_key(acc, key)) {
+        result = std::move(acc);
+        return true;
       }
-
-      result = std::move(acc);
-      return true;
+      // same hash, but a different key -> continue with the next extension item
     }
 
     // (27) - this acquire-load synchronizes-with the release-store (35)
